@@ -129,3 +129,124 @@ mutant('c09-interp-closure-depth','C09','callFunc#post:t-depth-balanced',IU,'''	
 			// pop the closure scope again''','''		defer func() {
 			// pop the closure scope again''')
 mutant('c09-interp-limit-check','C09','callFunc#post:limit',IU,'	if self.callStackSize > self.callStackLimitSize {','	if self.callStackSize > self.callStackLimitSize+1 {')
+# C03
+AE='homescript/analyzer/expression.go'
+AS='homescript/analyzer/statement.go'
+AT='homescript/analyzer/typing.go'
+mutant('c03-float-modulo-admitted','C03','infixExpression',AE,'''		case pAst.PlusInfixOperator, pAst.MinusInfixOperator,
+			pAst.MultiplyInfixOperator, pAst.DivideInfixOperator,
+			pAst.PowerInfixOperator:
+
+			// this yields a value of type `num`''','''		case pAst.PlusInfixOperator, pAst.MinusInfixOperator,
+			pAst.MultiplyInfixOperator, pAst.DivideInfixOperator,
+			pAst.PowerInfixOperator, pAst.ModuloInfixOperator:
+
+			// this yields a value of type `num`''')
+mutant('c03-string-compare-result','C03','infixExpression#post:result-type',AE,'''		case pAst.PlusInfixOperator:
+			// this yields a value of type `str`
+			resultType = ast.NewStringType(node.Range)
+		case pAst.EqualInfixOperator, pAst.NotEqualInfixOperator:
+			// this yields a value of type `bool`
+			resultType = ast.NewBoolType(node.Range)''','''		case pAst.PlusInfixOperator:
+			// this yields a value of type `str`
+			resultType = ast.NewStringType(node.Range)
+		case pAst.EqualInfixOperator, pAst.NotEqualInfixOperator:
+			// this yields a value of type `bool`
+			resultType = ast.NewStringType(node.Range)''')
+mutant('c03-bool-shift-rejected-silently','C03','infixExpression',AE,'''			// this yields a value of type `bool`
+			resultType = ast.NewBoolType(node.Range)
+		default:
+			self.error(
+				fmt.Sprintf("Infix operator '%s' cannot be used on values of type '%s'", node.Operator, lhs.Type().Kind()),
+				nil,
+				node.Span(),
+			)
+		}
+	case ast.StringTypeKind:''','''			// this yields a value of type `bool`
+			resultType = ast.NewBoolType(node.Range)
+		default:
+		}
+	case ast.StringTypeKind:''')
+mutant('c03-prefix-minus-bool','C03','prefixExpression',AE,'''		case ast.IntTypeKind, ast.FloatTypeKind:
+		case ast.NeverTypeKind, ast.UnknownTypeKind:''','''		case ast.IntTypeKind, ast.FloatTypeKind, ast.BoolTypeKind:
+		case ast.NeverTypeKind, ast.UnknownTypeKind:''')
+mutant('c03-break-depth','C03','breakStatement',AS,'''	// check that this statement is only called inside of a loop
+	if self.currentModule.LoopDepth == 0 {''','''	// check that this statement is only called inside of a loop
+	if self.currentModule.LoopDepth < 0 {''')
+mutant('c03-while-depth-leak','C03','whileStatement#post:loop-depth-restored',AS,'''	body := self.block(node.Body, true)
+
+	self.currentModule.LoopDepth--
+
+	neverTerminates := !self.currentModule.CurrentLoopIsTerminated
+	// restore loop termination''','''	body := self.block(node.Body, true)
+
+	neverTerminates := !self.currentModule.CurrentLoopIsTerminated
+	// restore loop termination''')
+mutant('c03-while-cond-unchecked','C03','whileStatement#post:condition-must-be-bool',AS,'''	}); err != nil {
+		self.diagnostics = append(self.diagnostics, err.GotDiagnostic)
+	}
+
+	// validate that the block returns `null`
+	oldLoopIsTerminated := self.currentModule.CurrentLoopIsTerminated
+	self.currentModule.LoopDepth++
+
+	body := self.block(node.Body, true)
+
+	self.currentModule.LoopDepth--
+
+	neverTerminates := !self.currentModule.CurrentLoopIsTerminated
+	// restore loop termination''','''	}); err != nil {
+		_ = err
+	}
+
+	// validate that the block returns `null`
+	oldLoopIsTerminated := self.currentModule.CurrentLoopIsTerminated
+	self.currentModule.LoopDepth++
+
+	body := self.block(node.Body, true)
+
+	self.currentModule.LoopDepth--
+
+	neverTerminates := !self.currentModule.CurrentLoopIsTerminated
+	// restore loop termination''')
+mutant('c03-kind-equality-inverted','C03','checkTypeKindEquality',AT,'	if expected.Kind() != got.Kind() {\n		return newCompatibilityErr(','	if expected.Kind() == got.Kind() {\n		return newCompatibilityErr(')
+# C18
+mutant('c18-analyzer-extra-member','C18','StringType.Fields#post:offers-only-table-members','homescript/analyzer/ast/types.go','''		"len": NewFunctionType(
+			NewNormalFunctionTypeParamKind(make([]FunctionTypeParam, 0)),
+			fieldSpan,
+			NewIntType(fieldSpan),
+			fieldSpan,
+		),
+		"replace": NewFunctionType(''','''		"len": NewFunctionType(
+			NewNormalFunctionTypeParamKind(make([]FunctionTypeParam, 0)),
+			fieldSpan,
+			NewIntType(fieldSpan),
+			fieldSpan,
+		),
+		"is_empty": NewFunctionType(
+			NewNormalFunctionTypeParamKind(make([]FunctionTypeParam, 0)),
+			fieldSpan,
+			NewBoolType(fieldSpan),
+			fieldSpan,
+		),
+		"replace": NewFunctionType(''')
+mutant('c18-runtime-member-renamed','C18','ValueOption.Fields#post:has-every-offered-member',V+'valueOption.go','"unwrap_or":','"unwrap_or_else":')
+mutant('c18-remove-no-wrap','C18','ValueList.Fields["remove"]',V+'valueList.go','''			length := len(*self.Values)
+			if index < 0 {
+				index = index + length
+			}
+			if index < 0 || index >= length {''','''			length := len(*self.Values)
+			if index < 0 || index >= length {''')
+mutant('c18-insert-off-by-one','C18','ValueList.Fields["insert"]',V+'valueList.go','			*self.Values = append((*self.Values)[:index+1], (*self.Values)[index:]...)\n			(*self.Values)[index] = &args[1]','			*self.Values = append((*self.Values)[:index+1], (*self.Values)[index:]...)\n			(*self.Values)[index+1] = &args[1]')
+mutant('c18-interp-pop-empty','C18','ValueList.Fields["pop"]','homescript/interpreter/value/valueList.go','''			length := len(*self.Values)
+			// if the list is already empty, do not pop any values
+			if length == 0 {
+				return NewNoneOption(), nil
+			}
+
+			// remove the last slice element''','''			length := len(*self.Values)
+
+			// remove the last slice element''')
+mutant('c18-len-returns-float','C18','ValueString.Fields["len"]#post:typed-result',V+'valueString.go','''		"len": NewValueBuiltinFunction(func(executor Executor, cancelCtx *context.Context, span errors.Span, args ...Value) (*Value, *VmInterrupt) {
+			return NewValueInt(int64(utf8.RuneCountInString(self.Inner))), nil''','''		"len": NewValueBuiltinFunction(func(executor Executor, cancelCtx *context.Context, span errors.Span, args ...Value) (*Value, *VmInterrupt) {
+			return NewValueFloat(float64(utf8.RuneCountInString(self.Inner))), nil''')
